@@ -155,6 +155,9 @@ func (f *FuncCtx) stmt(s ast.Stmt, env *Env, fl *flow) *Env {
 	case *ast.GoStmt:
 		f.note("go statement: spawned function not executed in this state (no interleaving model)")
 		text := exprStr(ast.Unparen(s.Call.Fun))
+		if _, isLit := ast.Unparen(s.Call.Fun).(*ast.FuncLit); isLit {
+			text = "func"
+		}
 		var args []Val
 		for _, a := range s.Call.Args {
 			args = append(args, f.expr(a, env))
@@ -1048,7 +1051,11 @@ func (f *FuncCtx) loopCalls(nodes []ast.Node, name string, env *Env) bool {
 					found = true
 				}
 			case *ast.GoStmt:
-				if "go "+exprStr(ast.Unparen(c.Call.Fun)) == name {
+				gt := exprStr(ast.Unparen(c.Call.Fun))
+				if _, isLit := ast.Unparen(c.Call.Fun).(*ast.FuncLit); isLit {
+					gt = "func"
+				}
+				if "go "+gt == name {
 					found = true
 				}
 			}
